@@ -2,7 +2,7 @@
 # usage: seed_import.sh <dir-with-seed-outputs>... : copies each delivered seed (patch.diff,
 # demo_test.go, meta.json) into /verif/seeded/<slug>/, verifies it in a scratch worktree and
 # runs the owning check against it through the overlay; appends one line per seed to
-# seeded/RESULTS-r4.txt
+# seeded/RESULTS-r${ROUND:-4}.txt
 cd /verif
 for src in "$@"; do
   slug=$(basename "$src")
@@ -13,5 +13,5 @@ for src in "$@"; do
   v=$(tools/seed_verify.sh seeded/$slug 2>&1 | tail -1 | sed "s/^$slug: //")
   props=$(python3 -c "import json;m=json.load(open('seeded/$slug/meta.json'));print(' '.join([m['property']]+m.get('also_check',[])))")
   ev=$(tools/seed_eval.sh seeded/$slug $props 2>&1 | grep "^$slug" | sed "s/^$slug //" | cut -c1-300 | tr '\n' ';')
-  echo "$slug | $v | $ev" | tee -a seeded/RESULTS-r4.txt
+  echo "$slug | $v | $ev" | tee -a seeded/RESULTS-r${ROUND:-4}.txt
 done
